@@ -416,6 +416,14 @@ package kv
 //@ ensures result == nbKey(offset)
 //@ note trusted: fmt.Sprintf of the offset as 16 hex digits under the notifications prefix
 
+// The bounds every scan of the stored notification batches uses are the keys of offset
+// 0 and of the largest offset: no committed batch lies outside them.
+//
+//@ func init
+//@ property C17
+//@ ensures firstNotificationKey == nbKey(0) && lastNotificationKey == nbKey(9223372036854775807)
+//@ modifies *
+
 //@ func newNotifications(shardId, offset, timestamp) (n)
 //@ property C17
 //@ ensures nbOk(n) && fresh(n) && n.batch.Shard == shardId && n.batch.Offset == offset && n.batch.Timestamp == timestamp
